@@ -8,11 +8,13 @@ pub mod director;
 pub mod evlog;
 pub mod fork;
 pub mod jsonw;
+pub mod p_channel;
 pub mod p_halflock;
 pub mod pool;
 pub mod probe;
 pub mod rng;
 pub mod sig;
+pub mod w_channel;
 pub mod w_halflock;
 pub mod w_reg;
 
